@@ -230,6 +230,15 @@ func (w *verifC14World) refreshContainers(mask int, podOfC1 string) {
 
 // check compares the cache with the reference model through the lookup API.
 func (w *verifC14World) check() {
+	// what every handler does when it collects its reply (getPendingUpdates):
+	// walk the containers with pending changes
+	if verifC14Try(func() {
+		for _, c := range w.cch.GetPendingContainers() {
+			_, _ = c.GetID(), c.GetState()
+		}
+	}) {
+		verifAssert("C14.cache.no-panic.GetPendingContainers", false)
+	}
 	for _, id := range append([]string{"pX", "pz"}, verifC14PodIDs...) {
 		var ok bool
 		if verifC14Try(func() { _, ok = w.cch.LookupPod(id) }) {
@@ -259,6 +268,7 @@ const (
 	verifC14Update
 	verifC14RefreshPods
 	verifC14RefreshContainers
+	verifC14MarkPending
 	verifC14Ops
 )
 
@@ -313,6 +323,16 @@ func VerifC14CacheOps() {
 			w.refreshPods(verifChoice("listed", 4))
 		case verifC14RefreshContainers:
 			w.refreshContainers(verifChoice("listed", 4), []string{"p1", "pX"}[verifChoice("pod", 2)])
+		case verifC14MarkPending:
+			// what a policy does while a request is processed: a setter marks the
+			// container as having changes the runtime must be told
+			id := verifC14CtrIDs[verifChoice("ctr", 2)]
+			if c, ok := w.cch.LookupContainer(id); ok {
+				if verifC14Try(func() { c.SetCPUShares(2) }) {
+					verifAssert("C14.cache.no-panic.SetCPUShares", false)
+				}
+				verifCover("marked-pending")
+			}
 		}
 		verifCover("operation-done")
 		w.check()
